@@ -400,6 +400,35 @@ def r7(run, db):
     run.check(a == b, "skeleton", "typed and serialized send agree: %s" % a, "send paths diverge: %s=%s vs %s=%s" % (sp[0].id.split("::")[-1], a, sp[1].id.split("::")[-1], b))
 
 
+def link_child_gates(run, db):
+    """[(insertion call, child-side status gates dominating it, statuses of the child they admit)] for every insertion into a
+    child set in SupervisionTree::link.  When the body shows no child-side gate at all (the test may sit in a local closure or a
+    private helper) the same question is put to the views that splice those in, so that a hidden test is not mistaken for none."""
+    out = []
+    dbs = [db]
+    if getattr(db, "inline_mode", None) is None:
+        dbs += [v for v in (run.view_db(db, w) for w in ("new+c", "aggr+c")) if v is not None]
+    for k, d in enumerate(dbs):
+        link = d.one(r"SupervisionTree::link$")
+        if link is None:
+            continue
+        ins = [c for c in link.calls() if c.matches(r"HashMap::<K, V, S, A>::insert$")]
+        res = []
+        for c in ins:
+            child_g = []
+            for g, pol in status_gates_at(link, c.site):
+                for r in g["subject"]:
+                    if r["k"] == "call" and 1 in link.origin_args(r["call"].args[0]):
+                        child_g.append((g, pol))
+            res.append((c, child_g, admitted_statuses(child_g)))
+        if k == 0:
+            run.anchor("link child-map insertions", len(ins), 1, link.where())
+            out = res
+        if res and all(g for _, g, _ in res):
+            return res
+    return out
+
+
 def r8(run, db):
     """a drain that lands before the message loop is up must not abort the start-up: the messages accepted so far are in the
     mailbox, the marker behind them, and only a started actor can work them off and stop with "Drained".  drain() publishes
@@ -456,16 +485,7 @@ def r8(run, db):
             adm = admitted_statuses(gs_)
             run.check("Draining" in adm, "%s|start-admits-drained-cell" % rt, "start() lets a cell through that was drained before it started (admits %s)" % adm,
                       "start() admits only %s, but drain() can publish Draining on an Unstarted cell: the start-up then fails (\"already started\"), the mailbox with every accepted message is dropped and nobody ever sees \"Drained\"" % adm, c.where())
-    link = run.need(db.one(r"SupervisionTree::link$"), "SupervisionTree::link")
-    ins = [c for c in link.calls() if c.matches(r"HashMap::<K, V, S, A>::insert$")]
-    run.anchor("link child-map insertions", len(ins), 1, link.where())
-    for c in ins:
-        child_g = []
-        for g, pol in status_gates_at(link, c.site):
-            for r in g["subject"]:
-                if r["k"] == "call" and 1 in link.origin_args(r["call"].args[0]):
-                    child_g.append((g, pol))
-        adm = admitted_statuses(child_g)
+    for c, child_g, adm in link_child_gates(run, db):
         run.check("Draining" in adm, "link-admits-draining-child", "a Draining child can be linked (child-side gates admit %s)" % adm,
                   "link() refuses a child that is Draining (child-side gates admit %s): an actor drained during its own start-up fails to start (\"Supervisor is shutting down\") and its accepted messages are dropped" % adm, c.where())
 
